@@ -121,7 +121,7 @@ class W9(EWorld):
 # m7: seven *different* original addresses, used with the `redirect` policy (server_connect rewrites them all to ADDR)
 LAYERS = {"tcp": None, "k2": 2, "k6": 6, "k7": 7, "m7": 7}
 SUSPEND = ["none", "server_connect", "server_connected", "server_connect_error", "server_disconnected", "client_connected", "client_disconnected"]
-POLICIES = ["none", "kill_server", "kill_client", "redirect"]
+POLICIES = ["none", "kill_server", "kill_client", "redirect", "close_err (fault: every close() raises OSError)"]
 FAULTS = ("refuse", "c_eof", "c_err", "s_eof", "s_err", "c_close_srv", "timeout", "c_data_drain_c", "c_data_drain_s", "s_data_drain_c")
 
 
@@ -134,7 +134,16 @@ def make_policy(pol):
         if pol == "redirect" and name == "server_connect":
             data.server.address = ADDR  # an addon redirecting upstream connections; open_connection connects to the new address
 
-    return policy if pol != "none" else None
+    return policy if pol not in ("none", "close_err") else None
+
+
+def _arm_close_error(wr):
+    def close():
+        wr.closed = True  # the socket is gone either way; close() just reports the reset
+        raise OSError("connection reset by peer during shutdown")
+
+    wr._close_armed = True
+    wr.close = close
 
 
 class Exec:
@@ -350,6 +359,11 @@ class Exec:
     def observe(self, w, st):
         n = sum(1 for e in w.servers if e.state == "open" and not e.w.closed and e.address == ADDR)
         st["max_open"] = max(st["max_open"], n)
+        if self.pol == "close_err":
+            # fault: every socket's close() reports an OSError (the peer reset the connection while it is shut down)
+            for e in [w.client] + list(w.servers):
+                if not getattr(e.w, "_close_armed", False):
+                    _arm_close_error(e.w)
 
     def close_out(self, w, st):
         for _ in range(80):
@@ -461,6 +475,11 @@ class Exec:
                     stage = self.stage(p, held, [e]) if p else "unknown"
                     t.judge("no_resources_left", e.w.closed, dict(base, what="server_socket_open", lost_at=stage), case, "every upstream socket closed", {"server": i, "hooks": p["hooks"] if p else None})
             t.judge("no_resources_left", w.client.w.closed, dict(base, what="client_socket_open"), case, "client socket closed", None)
+            # handler.transports ("live connections and their tasks"): an entry whose socket has been closed must be gone
+            # (entries whose socket is still open are the leak reported above; entries without reader/writer are not resources)
+            stale = [repr(c)[:60] for c, io in w.handler.transports.items() if io.writer is not None and getattr(io.writer, "_w", io.writer).closed]
+            t.judge("no_resources_left", not stale, dict(base, what="transport_entry_of_closed_socket", close_raised=self.pol == "close_err"), case,
+                    "no ConnectionIO entry left in handler.transports for a closed socket", stale)
             sems = {repr(a): (s._value, len(s._waiters or ())) for a, s in w.handler.max_conns.items()}
             t.judge("no_resources_left", all(v == (5, 0) for v in sems.values()), dict(base, what="semaphore"), case, "all per-address semaphores back at 5 without waiters", sems)
         t.outcome([summary, names.count("client_disconnected"), st["max_open"], closed])
@@ -515,6 +534,9 @@ def specs(tier):
         out.append((lay, "server_connect_error", "kill_server", True))
         if lay in ("tcp", "k2"):
             out.append((lay, "none", "kill_client", True))
+        if lay in ("tcp", "k2") or thorough:
+            out.append((lay, "none", "close_err", True))
+            out.append((lay, "server_disconnected", "close_err", True))
         if thorough or lay in ("tcp", "k6"):
             # deferred task start (non-eager event loop): the other legitimate order of task starts
             out.append((lay, "none", "none", False))
